@@ -150,8 +150,28 @@ def check_walks(ctx, F):
         if fn is not None:
             # the walk only feeds a B-tree map/set insert, or its consumer sorts the objects
             inserts = [H.mcall(y) for y in H.walk(fn["hir"]) if H.tag(y) == "mcall" and y[2] == "insert"]
+
+            def is_walk(y):
+                if H.tag(y) == "mcall":
+                    return y[2] == "into_iter" and any("WalkDir" in (t_ or "") for t_ in (y[3], y[5], y[9] if len(y) > 9 else None))
+                return H.tag(y) == "call" and ((H.call_path(y) or "").endswith("std::fs::read_dir") or "walkdir::WalkDir" in (H.call_path(y) or ""))
+            # the iterator chain that contains the walk ends in a collect into a B-tree collection (whatever adaptors sit in between,
+            # and also when the walk itself sits in a closure handed to flat_map), or into a vector that is sorted in this function
+            chains = [H.mcall(y) for y in H.walk(fn["hir"]) if H.tag(y) == "mcall" and y[2] == "collect" and any(is_walk(z) for z in H.walk(y))]
+            sorted_locals = {H.strip_refs(H.mcall(y)["recv"])[1] for y in H.walk(fn["hir"]) if H.tag(y) == "mcall" and y[2] in ("sort", "sort_unstable", "sort_by", "sort_by_key", "sort_unstable_by", "sort_unstable_by_key", "sort_by_cached_key")
+                             and H.tag(H.strip_refs(H.mcall(y)["recv"])) == "local"}
+            lets = {}
+            for y in H.walk(fn["hir"]):
+                if H.tag(y) == "let" and len(y) > 3 and H.tag(y[1]) == "bind" and isinstance(y[3], list):
+                    for z in H.walk(y[3]):
+                        if H.tag(z) == "mcall" and z[2] == "collect" and any(is_walk(w) for w in H.walk(z)):
+                            lets[id(z)] = y[1][1]
             if inserts and all("btree" in (m["recv_ty"] or "").lower() for m in inserts):
                 ok, why = True, "entries are inserted into a BTreeMap"
+            elif chains and all("btree" in (m["ty"] or "").lower() for m in chains):
+                ok, why = True, "the walk is collected into a B-tree collection"
+            elif chains and all("btree" in (m["ty"] or "").lower() or any(lets.get(id(y)) in sorted_locals for y in H.walk(fn["hir"]) if H.tag(y) == "mcall" and y[2] == "collect" and H.mcall(y) == m) for m in chains):
+                ok, why = True, "the walk is collected and sorted"
             elif owner == "crate::load_files":
                 # parsed objects are sorted by Objects::sort_members before anything is printed
                 sorters = [p for p in F.paths("fn") if p.endswith("::sort_members")]
